@@ -429,6 +429,35 @@ def exhaustive_cases(ctx: Ctx, r):
     return cases
 
 
+def exhaustive_tree_cases(ctx: Ctx, r):
+    """every tree over the paths {/a, /b, /a/x, /a/x/y} (every non-empty subset; a missing intermediate group is then
+    an implied, empty one) with every assignment of a content class {variables, coordinates only, attributes only,
+    nothing} to its groups: (1+4)^4 - 1 = 624 trees, as processed data via .asdf (types in turn) and, for the
+    deepest ones, as scene groups via the dictionary."""
+    cases = []
+    paths = ["/a", "/b", "/a/x", "/a/x/y"]
+    kinds = [None, "vars", "coords_only", "attrs_only", "empty"]
+    n = 0
+    for combo in itertools.product(kinds, repeat=len(paths)):
+        if not any(combo):
+            continue
+        tg = TreeGen(r, dims=["k", "time", "k k"])
+        groups = [tg.group(pth, kd) for pth, kd in zip(paths, combo) if kd]
+        for g in groups:
+            g["coords"] = [c for c in g["coords"] if c]
+        tree = {"flavour": "exhaustive", "root": None, "groups": groups}
+        kind = KINDS[n % 4]
+        n += 1
+        spec = make_spec(r, kind, [], dims=(2, 2), props={})
+        spec["init"] = {"data": {"tree": tree}}
+        cases.append({"route": "asdf", "exhaustive": True, "spec": spec})
+        if combo[3] and not combo[1]:
+            spec2 = make_spec(r, kind, [], dims=(2, 2), props={})
+            spec2["init"] = {"scene": {"sources": [], "tree": tree}}
+            cases.append({"route": "dict", "exhaustive": True, "spec": spec2})
+    return cases
+
+
 def pipeline_cases(ctx: Ctx, r, per_kind):
     cases = []
     groups = ["photon_collection", "charge_generation", "charge_collection", "charge_measurement", "readout_electronics"]
@@ -990,8 +1019,11 @@ def run(ctx: Ctx):
     cases = corpus + structured_cases(ctx, r) + random_cases(ctx, r, ctx.budget(100, 300)) + pipeline_cases(ctx, r, ctx.budget(3, 8))
     if not ctx.quick:
         cases += exhaustive_cases(ctx, ctx.rng("exh"))
+        cases += exhaustive_tree_cases(ctx, ctx.rng("exh_trees"))
         ctx.cov["exhaustive"] = ("all subsets of initialised containers (photon none/2-D/3-D): 4 types via .asdf files, "
-                                 "MKID also via to_dict/from_dict")
+                                 "MKID also via to_dict/from_dict; all 624 trees over the paths /a, /b, /a/x, /a/x/y with every "
+                                 "content class (variables / coordinates only / attributes only / nothing) per group, as "
+                                 "processed data via .asdf and (the 100 with /a/x/y and without /b) as scene groups via the dictionary")
     units, mism, viol = correspondence(ctx, cases)
     account(ctx, units)
     process(ctx, units, mism, viol)
